@@ -250,7 +250,7 @@ impl Campaign for Probe {
 
 pub fn plan(_tier: Tier) -> Plan {
     Plan {
-        campaigns: vec![Box::new(Roundtrip), Box::new(Huge), Box::new(BytesRoundtrip), Box::new(Probe(0)), Box::new(Probe(1)), Box::new(Probe(2)), Box::new(Probe(3))],
+        campaigns: vec![Box::new(crate::fuzzdec::FuzzReplay("fuzz_roundtrip", "roundtrip")), Box::new(Roundtrip), Box::new(Huge), Box::new(BytesRoundtrip), Box::new(Probe(0)), Box::new(Probe(1)), Box::new(Probe(2)), Box::new(Probe(3))],
         enumerators: vec![Box::new(|rep: &mut Report| {
             // pre-register the type x version x width matrix so that empty cells are visible
             for c in cells() {
